@@ -45,7 +45,14 @@ package varutil
 //@   loop 4 exit hassuffix(cat(prev(value), sbyte(rinput(payload(reader))[rpos(reader) - 1])), eof)
 //@   loop 4 exit value == sub(cat(prev(value), sbyte(rinput(payload(reader))[rpos(reader) - 1])), 0, len(prev(value)) + 1 - len(eof))
 
+// SplitArguments is ReadArguments over a reader of exactly the given string: there is one
+// splitter behind both entry points
 //@ func SplitArguments [C17]
+//@   layers contract trace
+//@   trace strings.NewReader as NEWREADER
+//@   trace ReadArguments as READ
+//@   at_call strings.NewReader requires $0 == src
+//@   trace_ensures true : ^NEWREADER READ $
 
 // ReduceAbsPath is the stack machine on "/"-separated segments: names push, ".." pops
 // (error on an empty stack), "" and "." are skipped. The result has no ".." segment.
